@@ -26,8 +26,8 @@ import (
 	"os"
 	"sort"
 	"strings"
-	"time"
 	"testing"
+	"time"
 
 	"github.com/cespare/xxhash/v2"
 	"github.com/cockroachdb/pebble/internal/base"
@@ -125,6 +125,15 @@ func (g Group) inputs() []input {
 			d := str(g.Len, idx)
 			out = append(out, input{fmt.Sprintf("str(len=%d,#%d)=%x", g.Len, idx, d), d})
 		}
+	case "large":
+		// blocks beyond 256 KiB (the size above which compressors stop retaining scratch buffers),
+		// incompressible and compressible ones alternating with small ones
+		for _, pl := range []struct {
+			p string
+			l int
+		}{{"lcg", 300000}, {"zeros", 10}, {"lcg", 299000}, {"period3", 300001}, {"lcg", 5}, {"counter", 262145}, {"lcg", 262144}} {
+			out = append(out, input{fmt.Sprintf("%s(len=%d)", pl.p, pl.l), pattern(pl.p, pl.l)})
+		}
 	case "mixed":
 		for _, l := range patternLens {
 			for _, p := range patternNames {
@@ -160,6 +169,7 @@ func groups(maxLen int) []Group {
 		gs = append(gs, Group{Kind: p})
 	}
 	gs = append(gs, Group{Kind: "mixed"})
+	gs = append(gs, Group{Kind: "large"})
 	for l := strGroupSyms + 1; l <= maxLen; l++ {
 		for p := 0; p < pow3(l-strGroupSyms); p++ {
 			gs = append(gs, Group{Kind: "str", Len: l, Prefix: p})
@@ -362,12 +372,20 @@ func runA(t *tally, tg target, g Group) {
 		ac := compression.NewAdaptiveCompressor(*tg.adaptive)
 		defer ac.Close()
 		allowed := []compression.Setting{tg.adaptive.Fast, tg.adaptive.Slow}
-		var dst []byte
+		// Two caller-owned destination buffers used alternately: the output of call i must still be
+		// intact after call i+1 (which was given the OTHER buffer) - a compressor that hands out its
+		// own scratch space would overwrite it.
+		var dst [2][]byte
+		var prev, prevCopy []byte
 		for i, in := range ins {
 			t.evals++
-			out := roundTripA(t, tg.name, ac, allowed, dst, i, in, "reused")
+			out := roundTripA(t, tg.name, ac, allowed, dst[i%2], i, in, "alternating")
+			if prev != nil && !bytes.Equal(prev, prevCopy) {
+				t.fail("output-clobbered-by-later-compress", i, in, "%s: the bytes returned by the previous Compress call changed during this call (%s -> %s)", tg.name, short(prevCopy), short(prev))
+			}
 			if out != nil {
-				dst = out
+				dst[i%2] = out
+				prev, prevCopy = out, append([]byte(nil), out...)
 			}
 		}
 		return
@@ -460,6 +478,25 @@ func runB(t *tally, tg target, g Group, corruptChecksumUpTo int) {
 	obj := &objstorage.MemObj{}
 	var stored []storedBlock
 	var off uint64
+	type pendingBlock struct {
+		pb block.OwnedPhysicalBlock
+		i  int
+		in input
+		k  block.Kind
+		fl block.PhysicalBlockFlags
+	}
+	var pending []pendingBlock
+	flushOne := func() {
+		p := pending[0]
+		pending = pending[1:]
+		l, err := block.WriteAndReleasePhysicalBlock(p.pb, obj)
+		if err != nil {
+			t.fail("block-write-error", p.i, p.in, "%s kind %s: %v", tg.name, p.k, err)
+			return
+		}
+		stored = append(stored, storedBlock{p.i, p.in, p.k, p.fl, off, uint64(l.WithoutTrailer())})
+		off += uint64(l.WithTrailer())
+	}
 	for i, in := range ins {
 		for _, k := range kindsB {
 			flagSet := []block.PhysicalBlockFlags{block.NoFlags}
@@ -473,15 +510,17 @@ func runB(t *tally, tg target, g Group, corruptChecksumUpTo int) {
 				if !bytes.Equal(orig, in.data) {
 					t.fail("compress-modified-source", i, in, "%s kind %s: Make changed its input", tg.name, k)
 				}
-				l, err := block.WriteAndReleasePhysicalBlock(pb.Take(), obj)
-				if err != nil {
-					t.fail("block-write-error", i, in, "%s kind %s: %v", tg.name, k, err)
-					continue
+				// like the writers' write queue: a made block is written only after two more blocks
+				// have been made by the same maker
+				pending = append(pending, pendingBlock{pb.Take(), i, in, k, fl})
+				if len(pending) > 2 {
+					flushOne()
 				}
-				stored = append(stored, storedBlock{i, in, k, fl, off, uint64(l.WithoutTrailer())})
-				off += uint64(l.WithTrailer())
 			}
 		}
+	}
+	for len(pending) > 0 {
+		flushOne()
 	}
 	file := obj.Data()
 	if uint64(len(file)) != off {
@@ -616,6 +655,18 @@ func runItem(tg target, g Group, thorough, verbose bool) *tally {
 func applicable(tg target, g Group) bool {
 	if tg.smallOnly && !g.isPattern() && g.Len > strGroupSyms {
 		return false
+	}
+	if g.Kind == "large" {
+		// blocks beyond 256 KiB: the adaptive compressors, the presets, and the block profiles with
+		// one checksum type (not the zstd level sweep: level 22 on 300 KB blocks costs seconds)
+		switch {
+		case tg.adaptive != nil:
+			return true
+		case tg.layer == "A":
+			return !tg.smallOnly && tg.setting.Algorithm != compression.Zstd || tg.setting.Level <= 3
+		default:
+			return tg.checksum == block.ChecksumTypeCRC32c
+		}
 	}
 	return true
 }
